@@ -207,14 +207,17 @@ static void run_ext_ops(char* text) {
             *colon = 0;
             uint32_t id = (uint32_t) strtoul(op + 1, 0, 10);
             int k = atoi(colon + 1);
-            printf("%d", (int) edn_external_register_type(id, k ? xeq1 : xeq0, k ? xh1 : xh0));
+            /* k: 0 = (eq0, hash0), 1 = (eq1, hash1), 2 = (eq0, no hash), 3 = (eq1, no hash), 4 = no equality (refused) */
+            edn_external_equal_fn ef = (k == 4) ? NULL : ((k & 1) ? xeq1 : xeq0);
+            edn_external_hash_fn hf = (k == 2 || k == 3) ? NULL : ((k & 1) ? xh1 : xh0);
+            printf("%d", (int) edn_external_register_type(id, ef, hf));
             if (nused < 64) used[nused++] = id;
         } else if (op[0] == 'u') { edn_external_unregister_type((uint32_t) strtoul(op + 1, 0, 10)); printf("-"); }
         else if (op[0] == 'l') {
             uint32_t id = (uint32_t) strtoul(op + 1, 0, 10);
             edn_external_equal_fn e = edn_external_lookup_equal(id);
             edn_external_hash_fn h = edn_external_lookup_hash(id);
-            if (!e) printf("none"); else printf("k%d%d", e == xeq1, h == xh1);
+            if (!e) printf("none"); else if (!h) printf("k%dn", e == xeq1); else printf("k%d%d", e == xeq1, h == xh1);
         } else printf("badop");
     }
     printf("\n");
